@@ -443,3 +443,26 @@ META["C17"] = dict(
     level_note="Trusts the harness's event-stream parser and de-chunker. Schedules and messages sampled.",
     design_ref="DESIGN.md §5 C17",
 )
+
+PLANS["C19"] = dict(
+    level="exploration",
+    rule=("generated directory trees written to a scratch directory (depth 0-4, 0-25 files, names over the route alphabet with dots, dashes, digits, upper case, every one of the 16 supported "
+          "extensions, empty files, a 1 MB file, binary and UTF-8 contents, index.html at any level, names that differ only by extension, a file outside the directory) mounted at '/', '/static', "
+          "'/a/b' or '/public' with omit_extensions in {none, [html], [.html, js], [css, html, json]}, optionally next to an ordinary route; after start-up the first file is overwritten and a file "
+          "is added (snapshot semantics). Requests: every expected path under GET/HEAD/POST/DELETE, with trailing slash, name extended / truncated by a byte, case variants, full name with "
+          "extension, without extension, every directory, '..' and '.' segments, doubled and encoded separators, %2e%2e, the outside file by several spellings, the added file. Oracle: map from the "
+          "generator's own tree (independent extension->media type table); everything else 404; bodies byte-identical to the start-up content. distinct_nontrivial = distinct (mount, omit set, "
+          "request class, method, depth, extension) and miss classes."),
+    quick=[R("c19", "rel", 1_600), R("c19", "miri", 8, shards=8, flags={"small": 1})],
+    thorough=[R("c19", "rel", 40_000), R("c19", "dbg", 4_000), R("c19", "asan", 4_000), R("c19", "miri", 48, shards=16, flags={"small": 1})],
+    floors={"quick": {"evaluations": 100_000, "distinct": 500, "files_served_identically": 20_000, "misses_404": 60_000, "trees_mounted": 1_400}, "thorough": {"evaluations": 3_000_000, "distinct": 1_000}},
+    assumptions=["trees whose route derivation is ambiguous (a.html next to a/index.html with html omitted) are skipped and counted", "file names follow the route-segment rules and carry a supported extension (others are refused at start-up, which is documented)",
+                 "media types compared with the IANA registrations of the 16 extensions"],
+)
+META["C19"] = dict(
+    engine="vh c19",
+    technique="runtime monitoring: reference-map oracle over generated on-disk trees and request sets, through the real Dir walk, router and serializer",
+    level_text="Real directory trees are created, mounted and queried; status, Content-Type and body of every response are compared with the generator's own map, including paths that must not be served.",
+    level_note="Trusts the generator's map and the extension table; sampled trees.",
+    design_ref="DESIGN.md §5 C19",
+)
